@@ -241,7 +241,5 @@ def run(prop, tier):
 
 
 def replay(prop, path):
-    with open(path) as f:
-        print(f.read()[:3000])
-    print("replay of histories: re-run ./check C14 (histories are enumerated exhaustively)")
-    return 1
+    from ..common import replay_by_rerun
+    return replay_by_rerun(prop, path)
